@@ -156,7 +156,7 @@ fn check_case(rep: &mut Reporter, case: &Case) {
         eprintln!("unknown family {}", case.family);
         std::process::exit(3);
     };
-    let mut failed = false;
+    let mut failed: Vec<String> = vec![];
     let mut judge = |rep: &mut Reporter, ok: bool, kind: &str, what: &dyn Fn() -> String| {
         rep.eval();
         if ok {
@@ -164,8 +164,8 @@ fn check_case(rep: &mut Reporter, case: &Case) {
         }
         if f.control {
             rep.count(&format!("control/{}/{kind}", f.name));
-        } else if !failed {
-            failed = true;
+        } else if !failed.iter().any(|k| k == kind) {
+            failed.push(kind.to_string());
             rep.violation(&format!("C34|{}|{kind}", f.name), &what(), json!(case));
         }
     };
@@ -218,7 +218,7 @@ fn check_case(rep: &mut Reporter, case: &Case) {
             None => {
                 // a keyed lookup may legitimately miss a key nobody incremented yet
                 let must = need >= 1 || f.reads == Reads::TotalCount;
-                judge(rep, !must, "get issued after an acknowledgement was never answered", &|| {
+                judge(rep, !must, "get never answered", &|| {
                     format!("get {id} {g:?}: no response by quiescence although {need} had been acknowledged")
                 });
             }
@@ -278,15 +278,11 @@ pub fn run(args: &Args) {
     let get_choices: Vec<Vec<i64>> = vec![vec![], vec![0], vec![1], vec![0, 1]];
     let per_tick: Vec<(Vec<KV>, Vec<i64>)> =
         inc_choices.iter().flat_map(|i| get_choices.iter().map(move |g| (i.clone(), g.clone()))).collect();
-    let full = args.tier == Tier::Thorough;
     if args.tier != Tier::Miri {
         for f in &FAMILIES {
             for t0 in &per_tick {
                 for t1 in &per_tick {
                     for t2 in &per_tick {
-                        if !full && !rng.chance(1, 4) {
-                            continue;
-                        }
                         for react in [false, true] {
                             let incs = vec![t0.0.clone(), t1.0.clone(), t2.0.clone()];
                             let gets = vec![t0.1.clone(), t1.1.clone(), t2.1.clone()];
@@ -299,7 +295,7 @@ pub fn run(args: &Args) {
     }
     // (B) random longer scripts
     for f in &FAMILIES {
-        for _ in 0..args.budget(1500, 30_000, 3) {
+        for _ in 0..args.budget(10_000, 300_000, 3) {
             let t = 2 + rng.below(7);
             let keys = 1 + rng.below(3) as i64;
             let mut incs = vec![];
@@ -336,13 +332,13 @@ pub fn run(args: &Args) {
     rep.finish(
         "Counter services (keyed value_counts, keyed sum, single count, single count behind yield_atomic; plus \
          the two documented non-atomic variants as controls) compiled by generate_embedded. Scripts: (A) every \
-         (thorough) / a seeded quarter (quick) of the 3-tick scripts over 2 keys with <= 2 increments and any \
+         one of the 3-tick scripts over 2 keys with <= 2 increments and any \
          subset of gets per tick, with the reactive client off and on; (B) random scripts of 2-8 ticks, <= 4 \
          increments and <= 3 gets per tick, 1-3 keys, reactive client on for a random half of the \
          acknowledgements. The client issues gets at tick starts and from inside the acknowledgement callback; \
          each get must read at least what had been acknowledged for its key (all keys for the single counters) \
          when it was issued, at most what was ever sent, and be answered exactly once. Non-trivial = at least \
          two ticks received input and at least one get was issued after an acknowledgement.",
-        full,
+        true,
     );
 }
